@@ -261,6 +261,10 @@ def rule_items_appended(ctx, rule="C16-items", traits=("core::iter::traits::coll
                     elif k and k in F.bodies and k not in anchors(F) and F.bodies[k].j["kind"] != "closure":
                         todo.append(k)      # a private helper shared by several impls (`extend_pieces(iter)`)
                 continue
+            # one loop polls the iterator: String's impls stop at the first None; a second loop (after a
+            # `by_ref().take(n)` batch, say) polls a non-fused iterator again after it said None
+            ctx.ob(rule, key, "one-polling-site", len(nexts) == 1, line=b.line(nexts[0]), how="one next() call site",
+                   detail="the iterator is polled at %d sites (lines %s): after one loop has seen None another one asks again" % (len(nexts), [b.line(x) for x in nexts]))
             apps = set()
             for bb, t in b.calls():
                 if callee_name(t) in APP and len(t["args"]) >= 2 and "item(" in describe(b, b.origin_operand(t["args"][1])):
